@@ -39,7 +39,7 @@ Paths == {"dense_list", "ndarray", "csr", "csc", "coo", "lil", "dok", "edge_list
           \* histories: save, change the node weights, save again, load the second file
           "resave_unit.graphml", "resave_unit.pickle", "resave_w.graphml", "resave_w.pickle",
           \* the spatial subclasses (network file + grid file)
-          "geo_none.graphml", "geo_set.graphml", "geo_set.pickle", "spatial.graphml",
+          "geo_none.graphml", "geo_set.graphml", "geo_set.pickle", "spatial.graphml", "climate.graphml",
           "geo_surface", "geo_irrigation", "geo_switch_irrigation"}
 \* paths whose final node weights are all one (whatever the weights of the case)
 \* paths whose node weights are the geographic ones (cos / cos^2 of latitude: not representable exactly):
